@@ -36,7 +36,7 @@ func tuples(k, n int, fn func(ix []int)) {
 }
 
 func checkC10(r *harness.Run) harness.Coverage {
-	r.Rule = "26 function names + 2 unknown names x arity 0..3 x every argument tuple over U13 = {null,true,1,\"a\",[],[1],[\"a\"],[1,\"a\"],[[1]],{},{\"a\":1},&a,&@} as literals, and through document fields (every pattern of field / expression-reference positions x all value assignments); arity 4 over a 6-value subset; by-expression functions over arrays of length 0..3 with keys number/string/null/bool/array/mixed; arity 1-2 over 19 further values (arrays with a null/boolean/array/object element, more scalars); every arity 1-2 call in 23 enclosing contexts (after a null left-hand side, multi-select member, not_null argument, projection right-hand side, ...). Oracle: the signature table of the reference model decides well-typed; every ill-typed, wrong-arity or unknown call must be an error. Non-trivial = reference outcome non-null or error; distinct by (expression, document)"
+	r.Rule = "26 function names + 2 unknown names x arity 0..3 x every argument tuple over U13 = {null,true,1,\"a\",[],[1],[\"a\"],[1,\"a\"],[[1]],{},{\"a\":1},&a,&@} as literals, and through document fields (every pattern of field / expression-reference positions x all value assignments); arity 4 over a 6-value subset; by-expression functions over arrays of length 0..4 (thorough 5) with keys number/string/null/bool/array/mixed; arity 1-2 over 19 further values (arrays with a null/boolean/array/object element, more scalars); every arity 1-2 call in 23 enclosing contexts (after a null left-hand side, multi-select member, not_null argument, projection right-hand side, ...). Oracle: the signature table of the reference model decides well-typed; every ill-typed, wrong-arity or unknown call must be an error. Non-trivial = reference outcome non-null or error; distinct by (expression, document)"
 	r.Assumptions = []string{"signature table: model/eval.go (from the JMESPath function specification)", "gap G11: an expression reference in a position typed any gives no verdict"}
 	names := callNames()
 	lits := []string{}
@@ -146,11 +146,11 @@ func checkC10(r *harness.Run) harness.Coverage {
 			run(exprs, docs)
 		})
 	}
-	// (3) by-expression keys: arrays of length 0..3 (thorough 4) with keys of every kind
+	// (3) by-expression keys: arrays of length 0..4 (thorough 5) with keys of every kind
 	elems := univ.Js(`{"k":1,"t":0}`, `{"k":2,"t":1}`, `{"k":"a","t":2}`, `{"k":"b","t":3}`, `{"k":null}`, `{"k":true}`, `{"k":[1]}`, `{"t":1}`, `1`, `"a"`)
-	maxLen := 3
+	maxLen := 4
 	if r.Thorough() {
-		maxLen = 4
+		maxLen = 5
 	}
 	var arrs []interface{}
 	for n := 0; n <= maxLen; n++ {
